@@ -330,6 +330,9 @@ fn gen(ctx: &GenCtx, i: u64) -> Option<Run> {
     if let Some(f) = &footer {
         raw_footer_edits(&mut rb, t.msg, f, &mut outs);
     }
+    for n in [1u8, 2, 5] {
+        outs.push(rb.fault(t.msg, FaultKind::RepeatHeader { n }, None));
+    }
     let twin_every = 7;
     for (k, m) in outs.iter().enumerate() {
         rb.push(Op::Deliver { msg: *m, to: v, now_ns: Ns(deliver_at), ticks: vec![], twin: vlayer != Layer::Core && k % twin_every == 0, control: None, key: None });
